@@ -17,12 +17,12 @@ open PrologVerif PrologVerif.Lexer PrologVerif.Ops PrologVerif.Read
 
 /-! ## hypotheses on the table and the term -/
 
-/-- what the round trip needs of the operator table: priorities 1..1200; never an infix and a postfix
+/-- what the round trip needs of the operator table: priorities ≤ 1200; never an infix and a postfix
     operator of one name; `,` only as the infix operator of priority 1000; `|` only infix, ≥ 1001;
     `[]` and `{}` are not operators -/
 def tableOK (t : Table) : Bool :=
   t.all fun o =>
-    decide (1 ≤ o.pri ∧ o.pri ≤ 1200) &&
+    decide (o.pri ≤ 1200) &&
     !(o.spec.cls = .inf && definedInClass t o.name .post) &&
     !(o.spec.cls = .post && definedInClass t o.name .inf) &&
     decide (o.name = "," → o.spec.cls = .inf ∧ o.pri = 1000) &&
